@@ -22,27 +22,133 @@ Theorem C26_tag_message_intact : forall lk items, names_ok items ->
 Proof. exact tag_message_intact. Qed.
 Print Assumptions C26_tag_message_intact.
 
-(* tag, whole pipeline, for blocks without whitespace (the whitespace collapse is covered by the correspondence run only) *)
-Theorem C26_tag_text_intact_partial : forall lk items, names_ok items ->
+(* tag, whole pipeline (validate, double percent signs, strip, re.sub of \s*\n\s*, gettext, collect variables, printf)
+   for EVERY block of characters -- whitespace of every ASCII kind included -- and variables: the output is the
+   normal form of the block's decomposition into words and whitespace gaps (lead and trail dropped, a gap with a
+   newline -> one space, any other gap unchanged, words unchanged) with the variables substituted; a variable whose
+   name is not [\w?-]+ is the syntax error *)
+Theorem C26_tag_normalised : forall lk items,
+  format_tag items lk =
+  if names_valid items then Ok (render_items (norm_block (decompose items)) lk) else Err ESyntax.
+Proof. exact tag_normalised. Qed.
+Print Assumptions C26_tag_normalised.
+
+(* the same, stated for a block GIVEN by any well-formed decomposition (so the rule does not depend on how
+   decompose computes it), and: every block has one *)
+Theorem C26_tag_normalised_block : forall lk b, wf_block b = true ->
+  format_tag (flatten b) lk = if names_valid (flatten b) then Ok (render_items (norm_block b) lk) else Err ESyntax.
+Proof. exact tag_normalised_block. Qed.
+Print Assumptions C26_tag_normalised_block.
+
+Theorem C26_every_block_decomposes : forall items, wf_block (decompose items) = true /\ flatten (decompose items) = items.
+Proof. exact decompose_ok. Qed.
+Print Assumptions C26_every_block_decomposes.
+
+(* what the normal form is: the non-whitespace items are the block's, in order (nothing else changes); no newline is
+   left outside variable values; it neither starts nor ends with whitespace *)
+Theorem C26_normal_form_keeps_text : forall b, wf_block b = true ->
+  filter nonspace (norm_block b) = filter nonspace (flatten b).
+Proof. exact norm_keeps_nonspace. Qed.
+Print Assumptions C26_normal_form_keeps_text.
+
+Theorem C26_normal_form_no_newline : forall b, wf_block b = true ->
+  forallb (fun i => negb (item_nl i)) (norm_block b) = true.
+Proof. exact norm_no_newline. Qed.
+Print Assumptions C26_normal_form_no_newline.
+
+Theorem C26_normal_form_stripped : forall b, wf_block b = true ->
+  ihead_ns (norm_block b) /\ ihead_ns (rev (norm_block b)).
+Proof. exact norm_no_outer_space. Qed.
+Print Assumptions C26_normal_form_stripped.
+
+(* special case (the former partial theorem): a block without whitespace is left exactly as it is *)
+Theorem C26_tag_text_intact : forall lk items, names_ok items ->
   forallb (fun c => negb (is_space c)) (serialize items) = true ->
   format_tag items lk = Ok (render_items items lk).
 Proof. exact tag_text_intact. Qed.
-Print Assumptions C26_tag_text_intact_partial.
+Print Assumptions C26_tag_text_intact.
 
 (* plural form by count, exactly as gettext.NullTranslations (n == 1 ? singular : plural), zero and negatives included *)
 Theorem C26_plural_rule : forall z,
-  t_form true (CInt z) = null_ngettext z /\ t_form false (CInt z) = Singular /\
+  t_form true (CInt z) = Ok (null_ngettext z) /\ t_form false (CInt z) = Ok Singular /\
   tag_form true (CInt z) = Ok (null_ngettext z) /\ tag_form false (CInt z) = Ok Singular /\
-  t_form true (CStrInt z) = null_ngettext z /\ tag_form true (CStrInt z) = Ok (null_ngettext z).
+  ng_form (CInt z) = Ok (null_ngettext z).
 Proof. exact plural_rule. Qed.
 Print Assumptions C26_plural_rule.
 
+(* counts of every kind (nil, booleans, integers, floats, infinity, NaN, any string, arrays, hashes), per entry point:
+   the tag uses the count's integer value (booleans 0/1, floats truncated, integer strings) and 1 when it has none;
+   ngettext/npgettext the same but the Liquid type error for nil/arrays/hashes; t treats nil and booleans as no count *)
+Theorem C26_tag_count : forall hp c,
+  tag_form hp c = Ok (if hp then null_ngettext (dflt 1 (count_int c)) else Singular).
+Proof. exact tag_form_spec. Qed.
+Print Assumptions C26_tag_count.
+
+Theorem C26_ngettext_count : forall c,
+  ng_form c = if count_no_type c then Err EType else Ok (null_ngettext (dflt 1 (count_int c))).
+Proof. exact ng_form_spec. Qed.
+Print Assumptions C26_ngettext_count.
+
+Theorem C26_t_count : forall hp c,
+  t_form hp c =
+  match c with
+  | CAbsent | CNil | CBool _ => Ok Singular
+  | CArr | CHash => Err EType
+  | _ => Ok (match hp, count_int c with true, Some n => null_ngettext n | _, _ => Singular end)
+  end.
+Proof. exact t_form_spec. Qed.
+Print Assumptions C26_t_count.
+
+Theorem C26_count_errors_are_liquid : forall hp c,
+  (forall e, t_form hp c = Err e -> is_liquid e = true) /\
+  (forall e, ng_form c = Err e -> is_liquid e = true) /\
+  (forall e, tag_form hp c = Err e -> is_liquid e = true).
+Proof. exact count_errors_are_liquid. Qed.
+Print Assumptions C26_count_errors_are_liquid.
+
+(* a count string: optional whitespace around an optional sign and decimal digits denotes that integer *)
+Theorem C26_count_string : forall lead trail sg ds, forallb is_space lead = true -> forallb is_space trail = true ->
+  ds <> [] -> forallb is_digit ds = true ->
+  py_int (lead ++ (sign_str sg ++ ds) ++ trail) = Some (sign_val sg (dval ds)).
+Proof. exact py_int_decimal. Qed.
+Print Assumptions C26_count_string.
+
+(* message context (translate tag's context: argument, the t filter's positional argument, pgettext/npgettext):
+   with null translations it never changes the text -- for every entry point, count and context the form is the one
+   the count alone selects; it only decides which gettext function is asked, and how *)
+Theorem C26_context_leaves_text : forall c,
+  run_plural c =
+  match pc_entry c with
+  | ETag => tag_form (pc_plural c) (pc_count c)
+  | ETFilter => t_form (pc_plural c) (pc_count c)
+  | EGettext | EPgettext => Ok Singular
+  | ENgettext | ENpgettext => ng_form (pc_count c)
+  end.
+Proof. exact context_leaves_text. Qed.
+Print Assumptions C26_context_leaves_text.
+
+Theorem C26_tag_call : forall hp c x,
+  tag_call hp c x =
+  do n <- tag_count c;
+  Ok (match tag_ctx x with
+      | Some k => if hp then GNpget k n else GPget k
+      | None => if hp then GNget n else GGet
+      end).
+Proof. exact tag_call_spec. Qed.
+Print Assumptions C26_tag_call.
+
 (* the code before the fixes, refuted by witnesses: printf over the whole message collapses %% (and garbles a lone %),
-   the tag's old variable pattern misses a variable right after a percent sign (KeyError), count 0 picked the singular *)
+   the tag's old variable pattern misses a variable right after a percent sign (KeyError), count 0 picked the singular;
+   a hyphenated variable was a KeyError and a quoted name ending in ")s" was cut short; an infinite count escaped from
+   the t filter as OverflowError *)
 Theorem C26_old_refuted :
   printf 0 (lit "%%") (fun _ => None) = Ok (lit "%") /\
   format_tag_msg_old (serialize [IChar 37%N; IVar (lit "n")]) (fun _ => lit "N") = Err EKeyError /\
-  t_form_old true (CInt 0) = Singular /\ tag_form_old true (CInt 0) = Ok Singular /\ null_ngettext 0 = Plural.
+  t_form_old true (CInt 0) = Ok Singular /\ tag_form_old true (CInt 0) = Ok Singular /\ null_ngettext 0 = Plural /\
+  format_tag_names_old [IVar (lit "a-b")] (fun _ => lit "V") = Err EKeyError /\
+  format_tag [IVar (lit "a-b")] (fun _ => lit "V") = Ok (lit "V") /\
+  format_tag_names_old [IVar (lit "a)s")] (fun k => if str_eqb k (lit "a") then [] else lit "V") = Ok (lit ")s") /\
+  t_count_inf_old CInf = Err EOverflowError /\ t_count CInf = Ok None.
 Proof. vm_compute. repeat split. Qed.
 Print Assumptions C26_old_refuted.
 
@@ -55,3 +161,17 @@ Proof. split; [|vm_compute; reflexivity]. cbn. repeat split; try discriminate; r
 Example C26_tag_nonvacuous :
   format_tag [IChar 49%N; IChar 37%N; IVar (lit "n"); IChar 37%N; IChar 40%N] (fun _ => lit "N") = Ok (lit "1%N%(").
 Proof. vm_compute. reflexivity. Qed.
+
+(* "  Hello,\n   {{ you-all }}!  \t100%  " *)
+Example C26_whitespace_nonvacuous :
+  let items := map IChar (lit "  Hello,") ++ [IChar 10%N] ++ map IChar (lit "   ") ++ [IVar (lit "you-all")] ++
+               map IChar (lit "!  ") ++ [IChar 9%N] ++ map IChar (lit "100%  ") in
+  format_tag items (fun _ => lit "Sue  and Al") = Ok (lit "Hello, Sue  and Al!  " ++ [9%N] ++ lit "100%") /\
+  wf_block (decompose items) = true /\
+  (exists lead w1 rest trail, decompose items = BWords lead w1 rest trail /\ length rest = 2).
+Proof. vm_compute. repeat split. do 4 eexists. split; reflexivity. Qed.
+
+Example C26_count_string_nonvacuous :
+  py_int (lit " -1_0 ") = Some (-10)%Z /\ py_int (lit "1__0") = None /\ py_int (lit "1.0") = None /\ py_int (lit "+ 1") = None /\
+  tag_form true (CStr (lit "1.0")) = Ok Singular /\ tag_form true (CFloat 5 1) = Ok Plural /\ tag_form true (CFloat 15 1) = Ok Singular.
+Proof. vm_compute. repeat split. Qed.
